@@ -8,7 +8,7 @@ sel = sys.argv[1:]
 if sel: M = [m for m in M if m['id'] in sel]
 def run(m):
     wd = f"/verif/work/selftest-{m['id']}"
-    cmd = ['/verif/bin/jdvc','vc','-timeout','10','-work',wd,'-sed',f"{m['file']}:::{m['old']}:::{m['new']}"] + m['funcs']
+    cmd = ['/verif/bin/jdvc','vc','-timeout','10','-work',wd,'-dir',m.get('dir','/repo/v2'),'-sed',f"{m['file']}:::{m['old']}:::{m['new']}"] + m['funcs']
     p = subprocess.run(cmd, capture_output=True, text=True)
     subprocess.run(['rm','-rf',wd])
     fails = [l for l in p.stdout.splitlines() if 'FAIL' in l]
